@@ -15,15 +15,25 @@ import (
 // scope run, and whether the listeners behind a failing one still run. The model needs the
 // exact delivery to know when a trigger is over, so it is parametrised by that policy and the
 // policy is MEASURED once per process on two tiny scope trees of the code under test (no
-// generated input involved). A delivery that is none of the eight recognised combinations
+// generated input involved). A delivery that is none of the twelve recognised combinations
 // leaves every case unjudged (inconclusive), never a violation.
 type dispatchPolicy struct {
 	known    bool
 	ownFirst bool // the scope's own listeners run before the inherited ones (nearest ancestor next)
 	lifo     bool // within one scope: last registered first
-	runAll   bool // listeners after a failing one still run
-	why      string
+	// after a failing listener: stopAll = nothing else runs; stopLevel = the remaining listeners of
+	// that scope are skipped, the next level still runs; runAll = everything runs
+	after int
+	why   string
 }
+
+const (
+	stopAll = iota
+	stopLevel
+	runAll
+)
+
+var afterNames = []string{"nothing else runs", "the rest of that scope's listeners is skipped, other levels still run", "all listeners still run"}
 
 var (
 	polOnce sync.Once
@@ -34,8 +44,8 @@ func policy() dispatchPolicy {
 	polOnce.Do(func() {
 		pol = calibrate()
 		if pol.known {
-			hx.Note("listener delivery measured on the code under test: own-first=%v last-registered-first=%v listeners-after-a-failing-one-run=%v",
-				pol.ownFirst, pol.lifo, pol.runAll)
+			hx.Note("listener delivery measured on the code under test: own-first=%v last-registered-first=%v after-a-failing-listener: %s",
+				pol.ownFirst, pol.lifo, afterNames[pol.after])
 		} else {
 			hx.Note("listener delivery of the code under test not recognised (%s): every case is left unjudged", pol.why)
 		}
@@ -86,7 +96,7 @@ func probeTree(ls []struct {
 func orderFor(ownFirst, lifo bool, ls []struct {
 	level int
 	fail  bool
-}, runAll bool) []int {
+}, after int) []int {
 	var out []int
 	lv := []int{0, 1, 2}
 	if ownFirst {
@@ -106,8 +116,11 @@ func orderFor(ownFirst, lifo bool, ls []struct {
 		}
 		for _, id := range ids {
 			out = append(out, id)
-			if ls[id].fail && !runAll {
+			if ls[id].fail && after == stopAll {
 				return out
+			}
+			if ls[id].fail && after == stopLevel {
+				break
 			}
 		}
 	}
@@ -141,7 +154,7 @@ func calibrate() dispatchPolicy {
 	found := false
 	for _, own := range []bool{false, true} {
 		for _, lifo := range []bool{false, true} {
-			if sameInts(got1, orderFor(own, lifo, p1, true)) {
+			if sameInts(got1, orderFor(own, lifo, p1, runAll)) {
 				p.ownFirst, p.lifo, found = own, lifo, true
 			}
 		}
@@ -155,12 +168,14 @@ func calibrate() dispatchPolicy {
 	if err != nil {
 		return dispatchPolicy{why: "failure probe: " + err.Error()}
 	}
-	switch {
-	case sameInts(got2, orderFor(p.ownFirst, p.lifo, p2, false)):
-		p.runAll = false
-	case sameInts(got2, orderFor(p.ownFirst, p.lifo, p2, true)):
-		p.runAll = true
-	default:
+	found = false
+	for _, a := range []int{stopAll, stopLevel, runAll} {
+		if sameInts(got2, orderFor(p.ownFirst, p.lifo, p2, a)) {
+			p.after, found = a, true
+			break
+		}
+	}
+	if !found {
 		return dispatchPolicy{why: fmt.Sprintf("failure probe saw listeners %v", got2)}
 	}
 	// the measurement must be repeatable (a randomised delivery is not recognised)
